@@ -438,7 +438,7 @@ func (c *Ctx) checkProxyRelayGate() {
 	}
 	var poll *ssa.Call
 	for _, ci := range callsIn(run) {
-		if f := staticCallee(ci); f != nil && f.Name() == "pollOffer" {
+		if f := staticCallee(ci); f != nil && f == p.Fn("proxy/lib", "(*SignalingServer).pollOffer") {
 			poll, _ = ci.(*ssa.Call)
 		}
 	}
